@@ -470,3 +470,158 @@ Lemma recall_merge_refuted_all a :
   enc_rout (wit_cfg a) (cmp (retr_metric true) (wit_cfg a) (run (retr_metric true) (wit_cfg a) t)) <>
   enc_rout (wit_cfg a) (cmp (retr_metric true) (wit_cfg a) (run (retr_metric true) (wit_cfg a) (Shard (retr_metric true) (stream (retr_metric true) t)))).
 Proof. destruct a; vm_compute; discriminate. Qed.
+
+(* ==========================================================================================
+   4. C17: metamorphic invariances
+   ========================================================================================== *)
+From TE Require Proofs.MetamorphicP.
+Definition iremap (f : Z -> Z) (x : item) : item := (f (fst x), snd x).
+Lemma ge2_remap f : MetamorphicP.strictly_increasing f -> forall a b, ge2 (iremap f a) (iremap f b) = ge2 a b.
+Proof.
+  intros Hf a b. unfold ge2, iremap. cbn [fst snd].
+  rewrite <- (Hf (fst b) (fst a)), <- (MetamorphicP.si_eqb f Hf (fst a) (fst b)). reflexivity.
+Qed.
+Lemma ins_remap f : MetamorphicP.strictly_increasing f -> forall x l, ins (iremap f x) (map (iremap f) l) = map (iremap f) (ins x l).
+Proof.
+  intros Hf x. induction l as [|y r IH]; [reflexivity|]. cbn [map]. rewrite !ins_cons, (ge2_remap f Hf).
+  destruct (ge2 x y); [reflexivity|]. cbn [map]. rewrite IH. reflexivity.
+Qed.
+Lemma sortd_remap f : MetamorphicP.strictly_increasing f -> forall l, sortd (map (iremap f) l) = map (iremap f) (sortd l).
+Proof.
+  intros Hf. induction l as [|x l IH]; [reflexivity|]. cbn [map]. rewrite !sortd_cons, IH. apply ins_remap, Hf.
+Qed.
+Lemma topk_remap f : MetamorphicP.strictly_increasing f -> forall k l, topk k (map (iremap f) l) = map (iremap f) (topk k l).
+Proof.
+  intros Hf k l. destruct k as [k|]; cbn [topk]; rewrite (sortd_remap f Hf); [|reflexivity]. apply firstn_map.
+Qed.
+Lemma sumlab_remap f l : sumlab (map (iremap f) l) = sumlab l.
+Proof. unfold sumlab. rewrite map_map. reflexivity. Qed.
+Lemma prec_fn_monotone f : MetamorphicP.strictly_increasing f -> forall k lim l,
+  prec_fn k lim (map (iremap f) l) = prec_fn k lim l.
+Proof. intros Hf k lim l. unfold prec_fn. rewrite (topk_remap f Hf), !sumlab_remap, map_length. reflexivity. Qed.
+Lemma rec_fn_monotone f : MetamorphicP.strictly_increasing f -> forall k l,
+  rec_fn k (map (iremap f) l) = rec_fn k l.
+Proof. intros Hf k l. unfold rec_fn. rewrite (topk_remap f Hf), !sumlab_remap. reflexivity. Qed.
+(* a strictly increasing map keeps scores tie-free *)
+Lemma tie_free_remap f : MetamorphicP.strictly_increasing f -> forall l, tie_free l -> tie_free (map (iremap f) l).
+Proof.
+  intros Hf l H. unfold tie_free in *. rewrite map_map.
+  replace (map (fun x => fst (iremap f x)) l) with (map f (map fst l)) by (rewrite map_map; reflexivity).
+  apply FinFun.Injective_map_NoDup; [|exact H].
+  intros a b Hab. pose proof (MetamorphicP.si_eqb f Hf a b) as E. rewrite Hab, Z.eqb_refl in E. apply Z.eqb_eq, E.
+Qed.
+
+(* ---- weights scaled by k ---- *)
+Open Scope Qc_scope.
+Definition scale_w (k : Qc) (w : rk_w) : rk_w :=
+  match w with WSc w => WSc (k * w) | WTen ws => WTen (map (map (Qcmult k)) ws) end.
+Lemma rk_sumQ_scale k l : rk_sumQ (map (Qcmult k) l) = k * rk_sumQ l.
+Proof. unfold rk_sumQ. induction l as [|x l IH]; cbn [map fold_right]; [ring|]. rewrite IH. ring. Qed.
+Lemma map2_scale k : forall ws xs, map2 Qcmult (map (Qcmult k) ws) xs = map (Qcmult k) (map2 Qcmult ws xs).
+Proof. induction ws as [|w ws IH]; intros [|x xs]; cbn [map map2]; try reflexivity. rewrite IH. f_equal. ring. Qed.
+Lemma nth_map_nil {X Y} (g : X -> Y) (l : list (list X)) i : nth i (map (map g) l) [] = map g (nth i l []).
+Proof. change (@nil Y) with (map g []). apply map_nth. Qed.
+Lemma wdot_scale k w i xs : wdot (scale_w k w) i xs = k * wdot w i xs.
+Proof.
+  destruct w as [w|ws]; cbn [scale_w wdot]; [ring|]. rewrite nth_map_nil, map2_scale, rk_sumQ_scale. reflexivity.
+Qed.
+Lemma wtotal_scale k w i xs : wtotal (scale_w k w) i xs = k * wtotal w i xs.
+Proof.
+  destruct w as [w|ws]; cbn [scale_w wtotal]; [ring|]. rewrite nth_map_nil, rk_sumQ_scale. reflexivity.
+Qed.
+Lemma mapi_scale (h h' : nat -> list Qc -> Qc) k rows : (forall i xs, h' i xs = k * h i xs) ->
+  mapi h' rows = map (Qcmult k) (mapi h rows).
+Proof.
+  intros H. unfold mapi. rewrite <- (mapi_from_map h (Qcmult k)). apply mapi_from_ext. exact H.
+Qed.
+Lemma map2_map_both {X Y Z} (g : Y -> Y -> Z) (h : X -> Y) : forall a b, map2 g (map h a) (map h b) = map2 (fun x y => g (h x) (h y)) a b.
+Proof. induction a as [|x a IH]; intros [|y b]; cbn [map map2]; try reflexivity. rewrite IH. reflexivity. Qed.
+Lemma map2_ext {X Y Z} (g g' : X -> Y -> Z) : (forall x y, g x y = g' x y) -> forall a b, map2 g a b = map2 g' a b.
+Proof. intros H. induction a as [|x a IH]; intros [|y b]; cbn [map2]; try reflexivity. rewrite H, IH. reflexivity. Qed.
+
+(* CTR: c / (w + eps) is homogeneous of degree 0 in (c, w, eps): scaling the weights by k is the same
+   as scaling eps by 1/k; for the eps-free ratio (eps = 0) it is an exact invariance *)
+Lemma ratio_scale k eps c w : k <> 0 -> ctr_ratio eps (k * c) (k * w) = ctr_ratio (eps / k) c w.
+Proof.
+  intros Hk. unfold ctr_ratio. replace (k * w + eps) with (k * (w + eps / k)) by (field; exact Hk).
+  set (x := w + eps / k). destruct (Qc_eq_dec x 0) as [E|E].
+  - rewrite E. replace (k * 0) with 0 by ring. unfold Qcdiv. change (/ 0) with 0. ring.
+  - field. split; assumption.
+Qed.
+Lemma ctr_weight_scale k eps b : k <> 0 ->
+  ctr_fn_eps eps (fst b, scale_w k (snd b)) = ctr_fn_eps (eps / k) b.
+Proof.
+  intros Hk. unfold ctr_fn_eps. cbn [fst snd].
+  rewrite (mapi_scale (wdot (snd b)) _ k (fst b) (wdot_scale k (snd b))).
+  rewrite (mapi_scale (wtotal (snd b)) _ k (fst b) (wtotal_scale k (snd b))).
+  rewrite map2_map_both. apply map2_ext. intros c w. apply ratio_scale, Hk.
+Qed.
+Lemma eps0_div k : 0 / k = 0.
+Proof. unfold Qcdiv. ring. Qed.
+Lemma ctr_weight_scale_exact k b : k <> 0 -> ctr_fn_eps 0 (fst b, scale_w k (snd b)) = ctr_fn_eps 0 b.
+Proof. intros Hk. rewrite (ctr_weight_scale k 0 b Hk), eps0_div. reflexivity. Qed.
+
+(* WeightedCalibration: IEEE quotient, exact invariance for k > 0 *)
+Lemma qeq_true_iff a b : qeq a b = true <-> a = b.
+Proof. unfold qeq. destruct (Qc_eq_dec a b); split; congruence. Qed.
+Lemma qeq_scale k a : k <> 0 -> qeq (k * a) 0 = qeq a 0.
+Proof.
+  intros Hk. destruct (qeq a 0) eqn:E.
+  - apply qeq_true_iff in E. subst. apply qeq_true_iff. ring.
+  - destruct (qeq (k * a) 0) eqn:E'; [|reflexivity]. apply qeq_true_iff in E'. apply Qcmult_integral in E'.
+    destruct E' as [E'|E']; [contradiction|]. subst. rewrite (proj2 (qeq_true_iff 0 0) eq_refl) in E. discriminate.
+Qed.
+Lemma qlt_scale k a : 0 < k -> qlt 0 (k * a) = qlt 0 a.
+Proof.
+  intros Hk. destruct (qlt 0 a) eqn:E.
+  - apply qlt_iff in E. apply qlt_iff. replace 0 with (0 * k) by ring. rewrite (Qcmult_comm k a).
+    apply Qcmult_lt_compat_r; assumption.
+  - destruct (qlt 0 (k * a)) eqn:E'; [|reflexivity]. apply qlt_iff in E'. exfalso.
+    assert (Ha : ~ 0 < a) by (intros H; apply qlt_iff in H; congruence).
+    apply Qcnot_lt_le in Ha.
+    assert (H2 : a * k <= 0 * k) by (apply Qcmult_le_compat_r; [exact Ha|apply Qclt_le_weak, Hk]).
+    replace (0 * k) with 0 in H2 by ring. rewrite (Qcmult_comm a k) in H2. apply (Qcle_not_lt _ _ H2 E').
+Qed.
+Lemma qdivx_scale k a b : 0 < k -> qdivx (k * a) (k * b) = qdivx a b.
+Proof.
+  intros Hk. assert (Hk0 : k <> 0) by (intros ->; apply (Qclt_not_eq _ _ Hk); reflexivity).
+  unfold qdivx. rewrite (qeq_scale k b Hk0), (qeq_scale k a Hk0), (qlt_scale k a Hk).
+  destruct (qeq b 0) eqn:E; [reflexivity|]. f_equal. field. split; [|exact Hk0].
+  intros ->. rewrite (proj2 (qeq_true_iff 0 0) eq_refl) in E. discriminate.
+Qed.
+Lemma wc_weight_scale k nt b : 0 < k -> wc_fn nt (wc_in b, wc_tg b, scale_w k (snd b)) = wc_fn nt b.
+Proof.
+  intros Hk. unfold wc_fn, wc_in, wc_tg. cbn [fst snd].
+  rewrite (mapi_scale (wdot (snd b)) _ k (fst (fst b)) (wdot_scale k (snd b))).
+  rewrite (mapi_scale (wdot (snd b)) _ k (snd (fst b)) (wdot_scale k (snd b))).
+  rewrite map2_map_both. apply map2_ext. intros x y. apply qdivx_scale, Hk.
+Qed.
+
+(* ---- the whole data set duplicated (concatenated with itself) ---- *)
+Lemma map2_diag {X Y} (g : X -> X -> Y) : forall a, map2 g a a = map (fun x => g x x) a.
+Proof. induction a as [|x a IH]; cbn [map2 map]; [reflexivity|]. rewrite IH. reflexivity. Qed.
+Lemma two_pos : 0 < 1 + 1.
+Proof. apply qlt_iff. vm_compute. reflexivity. Qed.
+Lemma two_ne0 : (1 + 1 : Qc) <> 0.
+Proof. intros H. pose proof two_pos as P. rewrite H in P. apply (Qclt_not_eq _ _ P). reflexivity. Qed.
+Lemma ctr_fn_eps_beta eps nt b : ctr_fn_eps eps b = map2 (ctr_ratio eps) (nlist (nget 0 (ctr_beta nt b))) (nlist (nget 1 (ctr_beta nt b))).
+Proof. unfold ctr_beta, ctr_fn_eps, nget. cbn [narr nth]. rewrite !nlist_nvec. reflexivity. Qed.
+Lemma ctr_duplicate eps nt b : ctr_valid nt b = true ->
+  ctr_fn_eps eps (ctr_cat b b) = ctr_fn_eps (eps / (1 + 1)) b.
+Proof.
+  intros Hv. rewrite (ctr_fn_eps_beta eps nt (ctr_cat b b)), (ctr_beta_cat nt b b Hv Hv).
+  unfold ctr_beta at 1 2 3 4. rewrite nadd_pairvec. unfold nget. cbn [narr nth]. rewrite !nlist_nvec, !map2_diag.
+  rewrite map2_map_both. unfold ctr_fn_eps. apply map2_ext. intros c w.
+  replace (c + c) with ((1 + 1) * c) by ring. replace (w + w) with ((1 + 1) * w) by ring. apply ratio_scale, two_ne0.
+Qed.
+Lemma ctr_duplicate_exact nt b : ctr_valid nt b = true -> ctr_fn_eps 0 (ctr_cat b b) = ctr_fn_eps 0 b.
+Proof. intros Hv. rewrite (ctr_duplicate 0 nt b Hv), eps0_div. reflexivity. Qed.
+Lemma wc_fn_beta nt b : wc_fn nt b = map2 qdivx (nlist (nget 0 (wc_beta nt b))) (nlist (nget 1 (wc_beta nt b))).
+Proof. unfold wc_beta, wc_fn, nget. cbn [narr nth]. rewrite !nlist_nvec. reflexivity. Qed.
+Lemma wc_duplicate nt b : wc_valid nt b = true -> wc_fn nt (wc_cat b b) = wc_fn nt b.
+Proof.
+  intros Hv. rewrite (wc_fn_beta nt (wc_cat b b)), (wc_beta_cat nt b b Hv Hv).
+  unfold wc_beta at 1 2 3 4. rewrite nadd_pairvec. unfold nget. cbn [narr nth]. rewrite !nlist_nvec, !map2_diag.
+  rewrite map2_map_both. unfold wc_fn. apply map2_ext. intros x y.
+  replace (x + x) with ((1 + 1) * x) by ring. replace (y + y) with ((1 + 1) * y) by ring. apply qdivx_scale, two_pos.
+Qed.
